@@ -134,11 +134,21 @@ example : closeEvent ({ s := ({ now := 0, events := #[{ kind := .plain, cbs := n
 /-! ## global: scheduled at most once, processed at most once, registered exactly once -/
 
 /-- **An event is scheduled at most once**: in every state of every safe run the agenda holds at most one entry per
-event, and only for events that are triggered and not yet processed. -/
+event, and exactly for the events that are triggered and not yet processed. -/
 theorem scheduled_at_most_once (body : σ → Resume → Burst ℚ σ) (fuel : Nat) (s0 s : KState ℚ σ)
     (h0 : Once.Inv0 false s0) (hsafe : Once.SafeRun body fuel s0) (hr : KReach body fuel s0 s) :
     Once.AgendaOnce s :=
   (Once.Inv0.reach body fuel h0 (fun h => by cases h) hsafe (fun h => by cases h) hr).agendaOnce
+
+/-- **An event is in the agenda exactly while it is triggered and unprocessed** — so a triggered event is never
+forgotten: it stays scheduled until the step that processes it (and hands its outcome to every waiter). -/
+theorem scheduled_iff_triggered_unprocessed (body : σ → Resume → Burst ℚ σ) (fuel : Nat) (s0 s : KState ℚ σ)
+    (h0 : Once.Inv0 false s0) (hsafe : Once.SafeRun body fuel s0) (hr : KReach body fuel s0 s) (e : EvId) :
+    (∃ q ∈ s.agenda, q.ev = e) ↔ ((s.ev e).out ≠ none ∧ (s.ev e).cbs ≠ none) := by
+  have h := scheduled_at_most_once body fuel s0 s h0 hsafe hr
+  constructor
+  · rintro ⟨q, hq, rfl⟩; exact h.live q hq
+  · rintro ⟨h1, h2⟩; exact h.sched e h1 h2
 
 /-- **`step` never dies of a doubly scheduled event**: the event it pops is unprocessed, so the step is exactly the
 callback loop over the callbacks registered at that moment (never the `TypeError: 'NoneType' object is not iterable`
